@@ -99,6 +99,12 @@ def cases(tier, seed):
         dels = [D[i] for i in prog if D[i][0] == "delete"]
         if dels and base not in ("boxes", "box_loft"):
             return False
+        if base not in ("boxes", "box_loft"):
+            # a merged (slave) patch on single operations of a shape duplicates their vertices and cuts the
+            # shape's chops off from them: chopping would be the script's job, which this alphabet does not do
+            kinds = {D[i][0] for i in prog}
+            if "merge" in kinds and kinds & {"set_patch", "set_patch2"}:
+                return False
         return len({d[1] for d in dels}) < 2
 
     for base in BASES:
